@@ -19,10 +19,10 @@ ENTRY_RE = re.compile(r"^(write|error)")
 ENTRY_EXACT = ("overwrite", "clear")
 MARK = re.compile(r"m(\d+)\.")
 # shapes of the text a writing call is given: built around the marker m<t>. ... or without any marker
-MARK_SHAPES = {"plain": "m%d.", "nl": "m%d.\n", "mid": "a\nm%d.", "pad": " m%d. "}
+MARK_SHAPES = {"plain": "m%d.", "nl": "m%d.\n", "mid": "a\nm%d.", "pad": " m%d. ", "uni": "\u00e9m%d.\u00fc\u0416"}
 NOMARK_SHAPES = {"empty": "", "blank": "  ", "onlynl": "\n"}
-SHAPE_SETS = [["plain", "nl", "empty", "pad"], ["nl", "mid", "blank", "onlynl"]]
-ALL_SHAPES = ["plain", "nl", "mid", "pad", "empty", "blank", "onlynl"]
+SHAPE_SETS = [["plain", "nl", "empty", "pad"], ["nl", "mid", "blank", "onlynl", "uni"]]
+ALL_SHAPES = ["plain", "nl", "mid", "pad", "uni", "empty", "blank", "onlynl"]
 
 
 # entry points whose documented signature is (string, flags=None, ...): the flag word may be given positionally
@@ -206,6 +206,9 @@ class Subject(object):
                 self.outs = [Output(rec, _fmt(real["fmt"]))]
             elif kind == "section" and real.get("via") == "direct":
                 self.outs = [SectionOutput(rec, [], _fmt(real["fmt"]))]
+            elif kind == "section" and real.get("via") == "nested":  # a section of a section
+                self.parent = Output(rec, _fmt(real["fmt"]))
+                self.outs = [self.parent.section().section()]
             else:
                 parent = Output(rec, _fmt(real["fmt"]))
                 self.parent = parent
@@ -225,13 +228,46 @@ class Subject(object):
         return self.io if self.io is not None else self.outs[o - 1]
 
     def set(self, what, g, val):
-        """setter call(s) configuring exactly the outputs g: the I/O-level setter when g is all outputs of an I/O"""
+        """setter call(s) configuring exactly the outputs g: the I/O-level setter when g is all outputs of an I/O.
+        Returns "ok" or the class of the exception (an observation like any other)"""
         meth = "set_quiet" if what == "quiet" else "set_verbosity"
-        if self.io is not None and sorted(g) == [1, 2]:
-            getattr(self.io, meth)(val)
-        else:
-            for x in g:
-                getattr(self.outs[x - 1], meth)(val)
+        try:
+            if self.io is not None and sorted(g) == [1, 2]:
+                getattr(self.io, meth)(val)
+            else:
+                for x in g:
+                    getattr(self.outs[x - 1], meth)(val)
+        except Exception as e:  # noqa
+            return type(e).__name__
+        return "ok"
+
+    def can_rewire(self):
+        """exchanging stream / formatter must leave the decoration switch as the description fixed it"""
+        r = self.real
+        return r["kind"] != "sections" and not (r["fmt"] in ("plain", "null", "keep") and r.get("ansi"))
+
+    def rewire(self, g, what):
+        """Output.set_stream / set_formatter (IO.set_formatter for both outputs) after construction, with a stream /
+        formatter of the kind the description names"""
+        Rec = _rec_class()
+        ansi = True if self.real.get("ansi") else None
+        try:
+            if what == "set_stream":
+                for x in g:
+                    rec = Rec(_inner(self.real.get("inner", "buffered")), ansi)
+                    self.outs[x - 1].set_stream(rec)
+                    self.recs[self.sts[x - 1] - 1] = rec
+            else:
+                keep = self.real["fmt"] == "keep"
+                if self.io is not None and sorted(g) == [1, 2] and not keep:
+                    self.io.set_formatter(_fmt(self.real["fmt"]))
+                else:
+                    for x in g:
+                        o = self.outs[x - 1]
+                        o.set_formatter(o.formatter if keep or self.real["fmt"] == "null" else _fmt(self.real["fmt"]))
+        except Exception as e:  # noqa
+            return type(e).__name__
+        return "ok"
 
     def addressed(self, name, o):
         """the output(s) a call addresses: an output's own method - itself; IO.write* - the standard output, IO.error* -
@@ -312,16 +348,15 @@ def run_case(case):
                 evs.append(s.new_event())
             elif k == "config":
                 allg = list(range(1, len(s.outs) + 1))
-                s.set("quiet", allg, op["q"])
-                s.set("verbosity", allg, op["v"])
-                evs.append(dict(base_event("quiet"), g=allg, q=op["q"]))
-                evs.append(dict(base_event("verbosity"), g=allg, v=op["v"]))
+                evs.append(dict(base_event("quiet"), g=allg, q=op["q"], res=s.set("quiet", allg, op["q"])))
+                evs.append(dict(base_event("verbosity"), g=allg, v=op["v"], res=s.set("verbosity", allg, op["v"])))
             elif k == "quiet":
-                s.set("quiet", op["g"], op["q"])
-                evs.append(dict(base_event("quiet"), g=list(op["g"]), q=op["q"]))
+                evs.append(dict(base_event("quiet"), g=list(op["g"]), q=op["q"], res=s.set("quiet", op["g"], op["q"])))
             elif k == "verbosity":
-                s.set("verbosity", op["g"], op["v"])
-                evs.append(dict(base_event("verbosity"), g=list(op["g"]), v=op["v"]))
+                evs.append(dict(base_event("verbosity"), g=list(op["g"]), v=op["v"], res=s.set("verbosity", op["g"], op["v"])))
+            elif k == "rewire":
+                if s.can_rewire():
+                    evs.append(dict(base_event("rewire"), g=list(op["g"]), name=op["what"], res=s.rewire(op["g"], op["what"])))
             elif k == "write":
                 evs.append(s.write(op["name"], op["o"], op["f"], op.get("explicit_none", False), op.get("sh", "plain"),
                                    op.get("positional", False)))
@@ -348,6 +383,8 @@ def realizations(kind, full):
                     base = {"kind": kind, "fmt": fmt, "inner": inner, "ansi": ansi}
                     if kind == "section":
                         out.append(dict(base, via="parent"))
+                        if fmt in ("plain", "forced") and not ansi:
+                            out.append(dict(base, via="nested"))
                         if full or fmt in ("plain", "forced"):
                             out.append(dict(base, via="direct"))
                     elif kind == "sections":
@@ -398,6 +435,8 @@ def ops_of(beh):
             ops.append({"op": "quiet", "g": sorted(h["g"]), "q": h["q"]})
         elif k == "verbosity":
             ops.append({"op": "verbosity", "g": sorted(h["g"]), "v": h["v"]})
+        elif k == "rewire":
+            ops.append({"op": "rewire", "g": sorted(h["g"]), "what": "set_stream" if len(ops) % 2 else "set_formatter"})
         elif k == "write":
             ops.append({"op": "write", "name": h["name"], "o": h["o"], "f": h["f"], "sh": h["sh"],
                         "positional": (h["t"] + max(h["f"], 0)) % 2 == 0, "explicit_none": h["t"] % 2 == 0})
@@ -406,6 +445,8 @@ def ops_of(beh):
 
 def agrees(beh, evs):
     """the write events show exactly what the model's behaviour says"""
+    if any(e["res"] != "ok" for e in evs):
+        return False
     ws = [e for e in evs if e["op"] == "write"]
     hs = [h for h in beh["ops"] if h["op"] == "write"]
     if len(ws) != len(hs):
@@ -491,7 +532,7 @@ def run(ctx):
     if len(table) < 12000:
         raise T.MachineryError("MC_OutputGate table emitted only %d behaviours" % len(table))
     ctx.extra["table_behaviours"] = len(table)
-    ctx.extra["table_replays"] = replay_behaviours(table, 3 if quick else None)
+    ctx.extra["table_replays"] = replay_behaviours(table, 2 if quick else None)
     ctx.sample({"tlc_table_row": table[len(table) // 2]})
 
     # ---- spec -> code: sequences
@@ -544,12 +585,12 @@ def run(ctx):
                 # the two outputs of an I/O configured independently (quiet / verbosity on one of them only, both directions)
                 if s.io is not None:
                     for one, other in (([1], [2]), ([2], [1])):
-                        for q, v in ((True, 0), (False, 4), (True, 4), (False, 1)):
+                        for q, v in ((True, 0), (False, 4), (True, 4), (False, 1)) if not quick else ((True, 0), (False, 4), (False, 1)):
                             for f in (FLAGWORDS if ent["hasFlags"] else [NOFLAGS]):
-                                ops += [{"op": "new"}, {"op": "quiet", "g": other, "q": False}, {"op": "verbosity", "g": other, "v": 0},
-                                        {"op": "quiet", "g": one, "q": q}, {"op": "verbosity", "g": one, "v": v},
-                                        {"op": "write", "name": ent["name"], "o": 1, "f": f, "sh": shapes[len(ops) % 2],
-                                         "positional": len(ops) % 4 < 2}]
+                                # the other output keeps what a fresh output has: not quiet, normal verbosity
+                                ops += [{"op": "new"}, {"op": "quiet", "g": one, "q": q}, {"op": "verbosity", "g": one, "v": v},
+                                        {"op": "write", "name": ent["name"], "o": 1, "f": f, "sh": shapes[(len(ops) // 4) % len(shapes)],
+                                         "positional": len(ops) % 8 < 4}]
                                 ctx.count()
                                 ctx.nontriv(("split", kind, dec, r.get("cls", ""), ent["name"], one[0], q, v, f))
                             if f > 0 and not q:
@@ -629,6 +670,8 @@ def random_ops(rng, real, n):
             ops.append({"op": "quiet", "g": rng.choice(groups), "q": rng.random() < 0.5})
         elif x < 0.45:
             ops.append({"op": "verbosity", "g": rng.choice(groups), "v": rng.choice(LEVELS)})
+        elif x < 0.53:
+            ops.append({"op": "rewire", "g": rng.choice(groups), "what": rng.choice(["set_stream", "set_formatter"])})
         else:
             e = rng.choice(ents)
             f = rng.choice(FLAGWORDS) if e["hasFlags"] else NOFLAGS
